@@ -163,16 +163,18 @@ class Engine:
         end of stream."""
         length = end - start + 1
         if valid is not None and mcs is not None:
-            if length >= max_length:
-                want = end
-            else:
-                last = None
-                for k in range(min(end, len(valid) - 1), start - 1, -1):
-                    if valid[k]:
-                        last = k
-                        break
-                want = n_total if last is None else min(last + mcs + 1,
-                                                        n_total)
+            # the deciding frame: the one completing max_length, or the first
+            # frame of excess silence (last valid frame + mcs + 1), or the
+            # end-of-stream read - whichever comes first
+            last = None
+            for k in range(min(end, len(valid) - 1), start - 1, -1):
+                if valid[k]:
+                    last = k
+                    break
+            cands = [n_total, start + max_length - 1]
+            if last is not None:
+                cands.append(last + mcs + 1)
+            want = min(cands)
             if d == want:
                 return None
             return ("token %d [%d..%d] handed over while read #%d was in "
@@ -248,14 +250,22 @@ class Engine:
                 whole_tokens, whole_at = toks, at
                 # clause 4: three delivery modes agree
                 src_l = SimFrameSource(valid, cut)
-                lst = norm(tk.tokenize(src_l))
+                tk_l = StreamTokenizer(_valid, p["min_length"],
+                                       p["max_length"], p["mcs"],
+                                       p["init_min"], p["init_max_silence"],
+                                       p["mode"])
+                tk_c = StreamTokenizer(_valid, p["min_length"],
+                                       p["max_length"], p["mcs"],
+                                       p["init_min"], p["init_max_silence"],
+                                       p["mode"])
+                lst = norm(tk_l.tokenize(src_l))
                 got_cb, at_cb = [], []
                 src_c = SimFrameSource(valid, cut)
 
                 def cb(data, start, end):
                     got_cb.append((data, start, end))
                     at_cb.append(src_c.reads)
-                r = tk.tokenize(src_c, callback=cb)
+                r = tk_c.tokenize(src_c, callback=cb)
                 got_cb = norm(got_cb)
                 if lst != toks or got_cb != toks:
                     return V("C08.4", "delivery modes disagree: list %r, "
@@ -306,18 +316,22 @@ class Engine:
 
     # ------------------------------------------------------------------ L2
     def _l2(self, sc, out):
+        """split() over a simulator-owned source.  What is observed: the
+        frames as the validator judges them (a recording validator wrapping
+        the real one), the samples the source has handed out, and whether it
+        has signalled end of stream - each at the moment a region reaches the
+        consumer.  Token indices come from a fresh StreamTokenizer run over
+        the OBSERVED verdict sequence, not from region.start / len(data)."""
         from auditok import AudioReader, split
+        from auditok.core import StreamTokenizer
+        from auditok.util import AudioEnergyValidator
         V = self._V
         sw, ch, sr, bsz = sc["fmt"]
         bps = sw * ch
         params = sc["params"]
         data = C.synth(sc["pattern"], bsz, sw, ch, sc["extra"])
-        nwin = len(sc["pattern"]) + (1 if sc["extra"] else 0)
         kw = C.split_kwargs(params)
-        kw["eth"] = C.ETH
-        mx, ms = params["mx"], params["ms"]
-        w = bsz / sr
-
+        mx, ms, mn = params["mx"], params["ms"], params["mn"]
         overlap = sc["via"] == "overlap" and layer_hop(sc) is not None
         hop = layer_hop(sc) if overlap else None
         hop_dur = None
@@ -328,77 +342,112 @@ class Engine:
 
         def start(cutbytes):
             src = sources.SimAudioSource(data[:cutbytes], sr, sw, ch)
+            real = AudioEnergyValidator(C.ETH, sw, ch)
+            seen = []          # verdict per frame, in the order judged
+
+            def rec_valid(frame):
+                ok = bool(real.is_valid(frame))
+                seen.append(ok)
+                return ok
             if overlap:
                 g = split(AudioReader(src, block_dur=sc["block_dur"],
-                                      hop_dur=hop_dur), **kw)
+                                      hop_dur=hop_dur), validator=rec_valid,
+                          **kw)
             elif sc["via"] in ("reader", "overlap"):
-                g = split(AudioReader(src, block_dur=sc["block_dur"]), **kw)
+                g = split(AudioReader(src, block_dur=sc["block_dur"]),
+                          validator=rec_valid, **kw)
             else:
-                g = split(src, analysis_window=sc["block_dur"], **kw)
-            return src, g
+                g = split(src, analysis_window=sc["block_dur"],
+                          validator=rec_valid, **kw)
+            return src, g, seen
 
-        def windex(t):
-            return int(round(t / w))
+        def needed(k, total):
+            """samples that k frames require"""
+            if k <= 0:
+                return 0
+            if overlap:
+                return min(total, bsz + (k - 1) * hop)
+            return min(total, k * bsz)
 
-        # reference framing + per-frame validity (real validator)
-        from auditok.util import AudioEnergyValidator
-        from .readers import Model
-        fm = Model(data, bps, bsz, hop, None)
-        frames = []
-        while True:
-            f_ = fm.read()
-            if f_ is None:
-                break
-            frames.append(f_)
-        val = AudioEnergyValidator(C.ETH, sw, ch)
-        valid = [bool(val.is_valid(f_)) for f_ in frames]
-        nwin = len(frames)
-
-        src, g = start(len(data))
+        src, g, seen = start(len(data))
+        total = len(data) // bps
         regs, at = [], []
         for r in g:
             regs.append(r)
-            at.append((src.reads, src.eof_returned))
+            at.append((len(seen), len(src.served_bytes()) // bps,
+                       src.eof_returned))
             out["steps"] += 1
         if src.reads_after_eof or src.eof_returned != 1:
             return V("C08.3", "split(): end of stream requested %d time(s), "
                      "%d read(s) after it" % (src.eof_returned,
                                               src.reads_after_eof),
                      "C08.3:eos_once")
-        if src.reads != nwin + 1:
-            return V("C08.3", "split(): %d reads for %d windows" % (
-                src.reads, nwin), "C08.3:reads")
-        for i, (r, (nreads, eof)) in enumerate(zip(regs, at)):
-            s = windex(r.start)
-            nw = -(-(len(r.data) // bps) // bsz)
-            e = s + nw - 1
-            d = nreads - 1
-            msg = self._latency(i, s, e, d, nwin, mx, ms, valid, ms)
-            if msg:
-                return V("C08.6", "split() over %s, region %d: %s" % (
-                    "an overlapping reader (hop %d of %d samples)" % (
-                        hop, bsz) if overlap else sc["via"], i, msg),
-                    "C08.6:split_latency")
+        nwin = len(seen)
+        # tokens of the observed verdict sequence (fresh tokenizer)
+        mode = (StreamTokenizer.DROP_TRAILING_SILENCE
+                if params["drop_trailing_silence"] else 0)
+        if params["strict_min_dur"]:
+            mode |= StreamTokenizer.STRICT_MIN_LENGTH
+
+        class _Seq:
+            def __init__(self, v):
+                self.v, self.i = v, 0
+
+            def read(self):
+                if self.i >= len(self.v):
+                    return None
+                self.i += 1
+                return (self.i - 1, self.v[self.i - 1])
+        try:
+            toks = StreamTokenizer(lambda f: f[1], mn, mx, ms,
+                                   mode=mode).tokenize(_Seq(seen))
+        except ValueError:
+            toks = None
+        if toks is None or len(toks) != len(regs):
+            # how regions relate to frames is C05's business: no basis for
+            # the hand-over clause here
+            out["probes"]["l2_regions_do_not_match_tokens"] = 1
+        else:
+            for i, (tok, (njudged, served, eof)) in enumerate(zip(toks, at)):
+                s_, e_ = tok[1], tok[2]
+                d = nwin if eof else njudged - 1
+                msg = self._latency(i, s_, e_, d, nwin, mx, ms, seen, ms)
+                if msg:
+                    return V("C08.6", "split() over %s, region %d: %s" % (
+                        "an overlapping reader (hop %d of %d samples)" % (
+                            hop, bsz) if overlap else sc["via"], i, msg),
+                        "C08.6:split_latency")
+                # lazy reading: no more samples pulled than the frames judged
+                # so far require (one window of slack for a source that
+                # delivers a window in pieces is not needed: judged in
+                # samples, not in calls)
+                if not eof and served > needed(njudged, total):
+                    return V("C08.6", "split() region %d handed over after "
+                             "%d samples had been pulled; the %d frames "
+                             "judged so far need %d" % (
+                                 i, served, njudged, needed(njudged, total)),
+                             "C08.6:split_prefetch")
         if overlap:
             out["probes"]["split_over_overlapping_reader"] = 1
+
         # abandonment: after k regions nothing more is pulled
         k = sc["abandon"]
         if regs and k >= 1:
             k = min(k, len(regs))
-            src2, g2 = start(len(data))
+            src2, g2, _ = start(len(data))
             for j, r in enumerate(g2, 1):
                 if j >= k:
                     break
             before = src2.reads
             getattr(g2, "close", lambda: None)()
-            if src2.reads != before or before != at[k - 1][0]:
+            if src2.reads != before:
                 return V("C08.2", "split(): consumer stopped after region %d; "
-                         "source read %d times (hand-over at %d)" % (
-                             k, src2.reads, at[k - 1][0]),
+                         "the source was read again (%d -> %d calls)" % (
+                             k, before, src2.reads),
                          "C08.2:read_after_abandon")
             out["faults"]["abandon"] = 1
         if overlap:
-            early = sum(1 for a in at if not a[1])
+            early = sum(1 for a in at if not a[2])
             out["nontrivial"] = len(regs) >= 2 and early >= 1
             return None
         # prefix consistency at a few cut points (whole windows + one ragged)
@@ -411,15 +460,17 @@ class Engine:
         for cb in cuts:
             if cb > len(data):
                 continue
-            srcp, gp = start(cb)
+            srcp, gp, _ = start(cb)
             pk = [(r.start, bytes(r.data)) for r in gp]
             ncut = -(-(cb // bps) // bsz)
-            msg = _prefix_check_regions(pk, keys, at, cb, ncut, w, bps, bsz)
+            msg = _prefix_check_regions(
+                pk, keys, [((nwin if a_[2] else a_[0] - 1) + 1, a_[2])
+                           for a_ in at], cb, ncut, bsz / sr, bps, bsz)
             if msg:
                 return V("C08.5", "split() prefix of %d bytes: %s" % (cb, msg),
                          "C08.5:split_prefix")
             out["faults"]["eof_cut"] = out["faults"].get("eof_cut", 0) + 1
-        early = sum(1 for a in at if not a[1])
+        early = sum(1 for a in at if not a[2])
         out["nontrivial"] = len(regs) >= 2 and early >= 1
         return None
 
@@ -446,10 +497,20 @@ class Engine:
         class RecObs(W.Worker):
             def __init__(self):
                 self.got = []
+                self.sent = []
                 super().__init__(timeout=0.2)
 
             def _process_message(self, message):
                 self.got.append((message, res["src"].reads))
+
+            def send(self, message):
+                # the hand-over: the tokenizer thread gives the detection to
+                # this observer (whatever the inbox is made of)
+                if isinstance(message, tuple):
+                    src_ = res["src"]
+                    self.sent.append((len(src_.served_bytes()),
+                                      src_.eof_returned))
+                return super().send(message)
 
         def main():
             src = res["src"] = sources.SimAudioSource(data, sr, sw, ch,
@@ -475,41 +536,55 @@ class Engine:
         if sim.harness_error:
             out["error"] = sim.harness_error
             return None
-        if failure is not None:
-            return V("C08.6", "pipeline did not terminate: %r" % (failure,),
-                     "C08.6:termination")
-        for t in sim.threads:
-            if t.exc is not None:
-                return V("C08.6", "exception in %s: %r" % (t.role, t.exc),
-                         "C08.6:exception")
+        if failure is not None or any(t.exc is not None
+                                      for t in sim.threads):
+            # liveness and exceptions of the pipeline are C12-C14's business
+            out["probes"]["l3_pipeline_failed_not_judged"] = 1
+            res.clear()
+            return None
         src3 = res["src"]
         if src3.reads_after_eof or src3.eof_returned != 1:
             return V("C08.3", "pipeline: end of stream returned %d time(s), "
                      "%d read(s) after it" % (src3.eof_returned,
                                               src3.reads_after_eof),
                      "C08.3:pipe_eos_once")
-        # reads issued when detection i was put into the observer's inbox
-        nreads = 0
-        at = {}
-        for e in sim.log:
-            if e[2] == "src.read":
-                nreads += 1
-            elif e[2] == "put" and e[1].startswith("TokenizerWorker") \
-                    and isinstance(e[3][1], int):
-                at[e[3][1]] = nreads
-        w = bsz / sr
+        # frames pulled from the source when detection i was handed to the
+        # observer (recorded in RecObs.send)
+        valid3 = [bool(p_) for p_ in sc["pattern"]] + (
+            [True] if sc["extra"] else [])
+        from auditok.core import StreamTokenizer
+        mode = (StreamTokenizer.DROP_TRAILING_SILENCE
+                if params["drop_trailing_silence"] else 0)
+        if params["strict_min_dur"]:
+            mode |= StreamTokenizer.STRICT_MIN_LENGTH
+
+        class _Seq:
+            def __init__(self, v):
+                self.v, self.i = v, 0
+
+            def read(self):
+                if self.i >= len(self.v):
+                    return None
+                self.i += 1
+                return (self.i - 1, self.v[self.i - 1])
+        toks = StreamTokenizer(lambda f: f[1], params["mn"], params["mx"],
+                               params["ms"], mode=mode).tokenize(_Seq(valid3))
+        sent = res["obs"].sent
         got = res["obs"].got
-        for i, ((id_, r), _) in enumerate(got):
-            s = int(round(r.start / w))
-            nw = -(-(len(r.data) // bps) // bsz)
-            e_ = s + nw - 1
-            d = at.get(id_, 10 ** 9) - 1
-            valid3 = [bool(p_) for p_ in sc["pattern"]] + (
-                [True] if sc["extra"] else [])
-            msg = self._latency(i, s, e_, d, nwin, params["mx"], params["ms"],
-                                valid3, params["ms"])
-            if msg:
-                return V("C08.6", "pipeline: %s" % msg, "C08.6:pipe_latency")
+        at = {}
+        if len(toks) == len(sent):
+            total = len(data) // bps
+            for i, (tok, (served_b, eof)) in enumerate(zip(toks, sent)):
+                frames = -(-(served_b // bps) // bsz)
+                d = nwin if eof else frames - 1
+                at[i] = d + 1
+                msg = self._latency(i, tok[1], tok[2], d, nwin, params["mx"],
+                                    params["ms"], valid3, params["ms"])
+                if msg:
+                    return V("C08.6", "pipeline: %s" % msg,
+                             "C08.6:pipe_latency")
+        else:
+            out["probes"]["l3_detections_do_not_match_tokens"] = 1
         early = sum(1 for v in at.values() if v - 1 < nwin)
         out["nontrivial"] = len(got) >= 2 and early >= 1
         res.clear()
